@@ -63,10 +63,13 @@ def rule_SF(ctx, fm):
               len(sf_) == 1, 'source field is not built from the source '
               'vector on this grid / frequency', ctx.where(fm, fn))
     sfn = sf_[0][1]['_sf_'] if sf_ else 'sfield'
+    stq_ = find(f'{sfn}.field *= {s}.strength', fn)
     ctx.check('C10.SF.scaling', 'get_source_field: times strength',
-              has(f'{sfn}.field *= {s}.strength', fn),
-              'source vector is not multiplied by the source strength',
-              ctx.where(fm, fn))
+              len(stq_) == 1 and not au.guards_of(stq_[0][0], fn),
+              'source vector is not multiplied by the source strength '
+              '(exactly once, for every value of the strength: the field is '
+              'linear in it)',
+              ctx.where(fm, stq_[0][0] if stq_ else fn))
     sc = find(f'{sfn}.field *= -{sfn}.smu0', fn)
     ok = len(sc) == 1 and [
         (ast.unparse(t_).replace(' ', ''), p) for t_, p in
@@ -471,6 +474,57 @@ def rule_GE(ctx):
             has(f'_q_ = point_to_square_loop({c[1]["_c_"]}, {b["_l_"]})',
                 init) for c in find(f'_c_ = (*_ctr_, {b["_a_"]}, '
                                     f'{b["_e_"]})', init))
+    # ... around the midpoint of the two electrodes
+    if u and ok:
+        b = u[0][1]
+        c_ = find(f'_c_ = (*_ctr_, {b["_a_"]}, {b["_e_"]})', init)
+        ctr = c_[0][1]['_ctr_']
+        P = b['_p_']
+        cd = [n for n in ast.walk(init) if isinstance(n, ast.Assign) and
+              ast.unparse(n.targets[0]) == ctr] if ctr.isidentifier() else []
+        val = cd[0].value if len(cd) == 1 else (
+            None if ctr.isidentifier() else ast.parse(ctr, mode='eval').body)
+        p0, p1 = sp.symbols('p0 p1')
+
+        def mid(e):
+            if isinstance(e, ast.Constant):
+                return sp.nsimplify(e.value)
+            if isinstance(e, ast.BinOp):
+                a_, b_ = mid(e.left), mid(e.right)
+                if a_ is None or b_ is None:
+                    return None
+                return {ast.Add: a_ + b_, ast.Sub: a_ - b_, ast.Mult: a_ * b_,
+                        ast.Div: a_ / b_}.get(type(e.op))
+            if isinstance(e, ast.Subscript) and ast.unparse(e.value) == P:
+                ix = ast.unparse(e.slice).replace(' ', '').strip('()')
+                return {'0': p0, '0,:': p0, '1': p1, '1,:': p1, '-1': p1,
+                        '-1,:': p1}.get(ix)
+            if isinstance(e, ast.Call):
+                f = ast.unparse(e.func)
+                ax = [a for a in e.args[1:]] + [k.value for k in e.keywords
+                                                if k.arg == 'axis']
+                if f in ('tuple', 'np.array', 'np.asarray', 'list') and \
+                        len(e.args) == 1:
+                    return mid(e.args[0])
+                on_p = (f in ('np.sum', 'np.mean', 'np.average', 'np.median')
+                        and e.args and
+                        ast.unparse(e.args[0]) == P) or f in (
+                            f'{P}.sum', f'{P}.mean')
+                if f in (f'{P}.sum', f'{P}.mean'):
+                    ax = list(e.args) + [k.value for k in e.keywords
+                                         if k.arg == 'axis']
+                if on_p and len(ax) == 1 and ast.unparse(ax[0]) == '0':
+                    return (p0 + p1) / (1 if f.endswith('sum') else 2)
+            return None
+        got = mid(val) if val is not None else None
+        ctx.check('C10.GE.formats', 'Dipole: magnetic loop around the '
+                  'midpoint of the two electrodes',
+                  got is not None and equal(got, (p0 + p1) / 2),
+                  f'the loop centre is `{ast.unparse(val) if val else ctr}` '
+                  f'= {got}; the dipole given by two electrodes is centred '
+                  'at (e1 + e2)/2, as the same dipole in the point format',
+                  ctx.where(em, cd[0] if cd else init),
+                  sample={'centre': str(got)})
     ret = [n for n in ast.walk(d2p) if isinstance(n, ast.Return)]
     ctx.check('C10.GE.formats', 'Dipole: (azimuth, elevation, length) of '
               'the two-electrode format keep their roles', ok,
